@@ -7,7 +7,7 @@ S (on the implementation): sorted union over the nx*ny allowed momenta of eigval
 K (model vs implementation): every entry of H(k) at the 16 momenta k in (pi/2)*{0,1,2,3}^2 against the exact
    Gaussian-integer model hk_gauss (formal phases w = i^q), and majorana_hamiltonian against ham_gauss.  The
    property does not fix the sign convention of k (the momentum grid is closed under k -> -k), so K accepts the
-   model at w or, consistently for the whole cell, at w^-1.  Helper functionals vs the Q model."""
+   model at (w_x^+-1, w_y^+-1), one choice for the whole cell.  Helper functionals vs the Q model."""
 from lib import *  # noqa
 import gen
 from koala import example_graphs as eg
@@ -17,7 +17,7 @@ from koala.hamiltonian import majorana_hamiltonian
 
 DRIVERS = ("c08",)
 TRANSLATORS = ("tiling_helpers",)
-MODEL_TARGETS = ["Gen/TilingGen.vo", "Model/Lattice.vo", "Model/Tiling.vo", "Model/Bloch.vo"]
+MODEL_TARGETS = ["Gen/TilingGen.vo", "Model/Lattice.vo", "Model/Tiling.vo", "Model/Examples.vo", "Model/Bloch.vo"]
 TARGETS = ["Proofs/TilingFacts.vo", "Proofs/BlochFacts.vo"]
 LEVEL = "proof"
 TRUST = [
@@ -150,12 +150,18 @@ def evaluate(ctx, cases, label, size_cap=700):
         hamm = parse_matrix(outs[bi * per + len(QUARTERS)]["ham"], n, SJ)
         imps = [Hk(np.array([qa * np.pi / 2, qb * np.pi / 2])) for qa, qb in QUARTERS]
         idx = {q: i for i, q in enumerate(QUARTERS)}
-        err_same = max(np.max(np.abs(mods[i] - imps[i])) for i in range(len(QUARTERS)))
-        err_flip = max(np.max(np.abs(mods[idx[((-qa) % 4, (-qb) % 4)]] - imps[idx[(qa, qb)]])) for qa, qb in QUARTERS)
+        # the property fixes H only up to the sign convention of each momentum component (the allowed grid is
+        # closed under kx -> -kx and ky -> -ky separately): accept the model at (w_x^sx, w_y^sy), one choice
+        # of (sx, sy) for the whole cell
+        errs = {}
+        for sx in (1, -1):
+            for sy in (1, -1):
+                errs[(sx, sy)] = max(np.max(np.abs(mods[idx[((sx * qa) % 4, (sy * qb) % 4)]] - imps[idx[(qa, qb)]])) for qa, qb in QUARTERS)
+        best = min(errs, key=errs.get)
         res.traces += 1
-        res.hist["convention/w" if err_same <= 1e-12 else "convention/w^-1"] = res.hist.get("convention/w" if err_same <= 1e-12 else "convention/w^-1", 0) + 1
-        if min(err_same, err_flip) > 1e-12:
-            ctx.k_mismatch(f"{label}: H(k) entries at the quarter-turn momenta differ from hk_gauss (max {min(err_same, err_flip):.3g}) for {tag}", case)
+        res.hist[f"convention/{best}"] = res.hist.get(f"convention/{best}", 0) + 1
+        if errs[best] > 1e-12:
+            ctx.k_mismatch(f"{label}: H(k) entries at the quarter-turn momenta differ from hk_gauss under every sign convention (max {errs[best]:.3g}) for {tag}", case)
         if np.max(np.abs(hamm - H0)) > 1e-12:
             ctx.k_mismatch(f"{label}: majorana_hamiltonian differs from ham_gauss for {tag}", case)
         # ---------------- S: union of Bloch spectra = spectrum of the tiling
